@@ -302,6 +302,7 @@ func (ms *monitorState) dataOf(req [16]byte) ([]byte, *OpSpec) {
 }
 
 func (ms *monitorState) onRelease(db *LockDB, pm *PriorityMutex) {
+	ms.cr.bindTextRids()
 	for _, id := range ms.order {
 		if id.db != db.dbId {
 			continue
@@ -455,6 +456,10 @@ func (ms *monitorState) explain(kt *keyTrack, after *MKey, ptrs []*Lock) {
 					continue
 				}
 				if last, ok := ms.lastIdx[rt.r.Client]; ok && rt.r.Idx < last {
+					continue
+				}
+			case *textClient:
+				if t := ssched.CurrentTask(); t == nil || t.Cur != any(c.conn.Peer) {
 					continue
 				}
 			}
@@ -973,7 +978,11 @@ func (ms *monitorState) onReply(r *ReqRec, rep *Reply) {
 		// C15: the reply carries the value from immediately before the operation
 		if rep.Result == protocol.RESULT_SUCCED || (rt.pred.Result == protocol.RESULT_LOCKED_ERROR && r.Op.Flag&protocol.LOCK_FLAG_UPDATE_WHEN_LOCKED != 0) {
 			got := valOfFrame(rep.Data)
-			if !got.Equal(rt.pred.Before) && !(len(kt.mk.Holders) == 0 && !rt.pred.Before.Exists) {
+			if rep.Text {
+				if !textValMatches(rt.pred.Before, rep.TextVal) && !(len(kt.mk.Holders) == 0 && !rt.pred.Before.Exists) {
+					ms.violate("C15", "reply_value", "request %s (text connection): reply carries value %v, the value immediately before the operation was %s", r, rep.TextVal, rt.pred.Before)
+				}
+			} else if !got.Equal(rt.pred.Before) && !(len(kt.mk.Holders) == 0 && !rt.pred.Before.Exists) {
 				ms.violate("C15", "reply_value", "request %s: reply carries value %s, the value immediately before the operation was %s", r, got, rt.pred.Before)
 			}
 		}
